@@ -59,6 +59,17 @@ Theorem tie_operations_rpc_RPC__request :
 Proof. tie. Qed.
 Print Assumptions tie_operations_rpc_RPC__request.
 
+(* the references to the raise modes: RPC._request tests  raise_mode == RaiseMode.ALL  or  (raise_mode == RaiseMode.ERRORS and ...)
+   (decide);  _extract_errors_params defaults raise_mode to operations.RaiseMode.ALL and ignore_errors to [] (extract_errors_params),
+   as does Manager.__init__ *)
+Theorem tie_raise_mode_references :
+  R_operations_rpc_RPC__request = [lit "RaiseMode.ALL"%string; lit "RaiseMode.ERRORS"%string] /\
+  R_manager__extract_errors_params = [lit "operations.RaiseMode.ALL"%string] /\
+  nth 0 R_manager_Manager___init__ [] = lit "operations.RaiseMode.ALL"%string /\
+  extract_errors_params None None = ([], K_operations_rpc_RaiseMode_ALL).
+Proof. tie. Qed.
+Print Assumptions tie_raise_mode_references.
+
 (* manager._extract_errors_params: the three dictionary keys *)
 Theorem tie_manager__extract_errors_params : L_manager__extract_errors_params =
   [lit "errors_params"%string; lit "ignore_errors"%string; lit "raise_mode"%string].
